@@ -83,6 +83,35 @@ def perturb_case(cfg, segments, rng, out):
     return None, changed
 
 
+def shared_state_case(cfg, rng, out):
+    """One state object reaches two samplers - a serial one and one whose chains go through a copying pool (the same checkpoint set
+    on both; what a warm start from another run does): each must run as if it had been given a private copy, i.e. like a third
+    sampler loaded from a pickled copy of the state, and whichever runs first must not change what the other one does."""
+    import pickle
+    src = run_with(cfg, None, [rng.choice([7, 12])])
+    st = src.state
+    frozen = pickle.dumps(st)
+    ref = C.build(cfg, seed=cfg['seed'] + 3)
+    ref.set_state(pickle.loads(frozen))
+    ref.run(6)
+    want = chain_histories(ref, cfg['pt'])
+    a = C.build(cfg, seed=cfg['seed'] + 3)
+    b = C.build(cfg, seed=cfg['seed'] + 3, pool=pools.CopyMap())
+    a.set_state(st)
+    b.set_state(st)
+    a.run(6)
+    b.run(6)
+    out.evaluations += 1
+    out.count('shared_state_cases')
+    for name, smp in (('the serial sampler', a), ('the sampler run through a copying pool after the serial one had run', b)):
+        for ci, (x, y) in enumerate(zip(chain_histories(smp, cfg['pt']), want)):
+            d = struct_diff(x, y)
+            if d:
+                return dict(what='one state object loaded into two samplers: chain %d of %s differs from a sampler loaded from a private '
+                                 'copy of that state: %s' % (ci, name, d), replay=dict(kind='shared_state', config=cfg))
+    return None
+
+
 def run(seed, tier):
     thorough = tier == 'thorough'
     rng = random.Random(seed * 32452843 + 7)
@@ -121,6 +150,8 @@ def run(seed, tier):
                 v = pool_case(cfg, segments, out, real_pool=(real_pools[i % 2] if real_pools and i % 3 == 0 else None))
                 if v is None:
                     v, changed = perturb_case(cfg, segments, rng, out)
+                if v is None and i % 2 == 0:
+                    v = shared_state_case(cfg, rng, out)
             except Exception as e:      # noqa
                 import traceback
                 out.corr_failures.append(dict(note='real sampler raised %r' % (e,), case=dict(config=cfg, segments=segments),
